@@ -127,6 +127,19 @@ theorem range_balanced_per_topic (inp : Input) (t : Topic) (a b : Member)
         rangeSlice_length _ _ _ hpos (List.idxOf_lt_length_iff.mpr hbc)]
     exact rLen_balanced _ _ _ _
 
+/-- the answer compared with the library (`rangeOutput`) consists of exactly the `rangeFor` values
+    the theorems above speak about -/
+theorem rangeOutput_items (inp : Input) (m : Member) (items : List (Topic × List Nat))
+    (hm : (m, items) ∈ rangeOutput inp) (t : Topic) (ps : List Nat) (hi : (t, ps) ∈ items) :
+    ps = rangeFor inp m t := by
+  unfold rangeOutput at hm
+  obtain ⟨ms, _, heq⟩ := List.mem_map.mp hm
+  injection heq with e1 e2
+  subst e1; subst e2
+  obtain ⟨t', _, heq'⟩ := List.mem_map.mp hi
+  injection heq' with e3 e4
+  subst e3; exact e4.symm
+
 /-! ## round robin -/
 
 /-- each partition is handed out exactly once, in sorted order -/
